@@ -80,7 +80,9 @@ func (s *Scheduler) Schedule(g *ExecutionGraph) error {
 
 				stage.Start = time.Now()
 
+				verifRun(stage, true, nil)
 				err := s.runStage(stage)
+				verifRun(stage, false, err)
 				if err != nil {
 					stage.UpdateStatus(StatusError)
 
